@@ -189,14 +189,47 @@ impl<'a> Bfs<'a> {
                     let s = root.slice(off, len);
                     let pat: Vec<u8> = (0..len).map(|i| 0x80 | (i as u8 & 0x7f)).collect();
                     if len > 0 {
-                        let w = s.write(&pat, 0).map_err(|e| format!("write failed: {:?}", e))?;
-                        if w != len {
-                            return Err(format!("write through the accessor moved {} of {} bytes", w, len));
-                        }
-                        let mut back = vec![0u8; len];
-                        s.read(&mut back, 0).map_err(|e| format!("read failed: {:?}", e))?;
-                        if back != pat || root.inside(off, len) != pat {
-                            return Err("data written through the accessor is not what is found in its range".into());
+                        // the memory traffic of the transfers is recorded (hook H1): inside the
+                        // window around the root, every load and store the library makes lies
+                        // inside the accessor's range - also the loads, which leave no trace in
+                        // memory (the other side of a copy is a host buffer outside the window)
+                        let log: std::rc::Rc<std::cell::RefCell<Vec<(usize, usize, bool)>>> = Default::default();
+                        let l2 = log.clone();
+                        let prev = vm_memory::verif_hooks::set_thread_observer(Some(std::rc::Rc::new(move |e: &vm_memory::verif_hooks::Event| match e {
+                            vm_memory::verif_hooks::Event::VolatileRead { addr, size } => l2.borrow_mut().push((*addr, *size, false)),
+                            vm_memory::verif_hooks::Event::VolatileWrite { addr, size } => l2.borrow_mut().push((*addr, *size, true)),
+                            _ => {}
+                        })));
+                        let moved = (|| -> Result<(), String> {
+                            let w = s.write(&pat, 0).map_err(|e| format!("write failed: {:?}", e))?;
+                            if w != len {
+                                return Err(format!("write through the accessor moved {} of {} bytes", w, len));
+                            }
+                            let mut back = vec![0u8; len];
+                            s.read(&mut back, 0).map_err(|e| format!("read failed: {:?}", e))?;
+                            if back != pat || root.inside(off, len) != pat {
+                                return Err("data written through the accessor is not what is found in its range".into());
+                            }
+                            let mut back2 = vec![0u8; len];
+                            s.read_slice(&mut back2, 0).map_err(|e| format!("read_slice failed: {:?}", e))?;
+                            let mut back3 = vec![0u8; len + 3];
+                            let n3 = s.copy_to(&mut back3[..]);
+                            if back2 != pat || n3 != len || back3[..len] != pat[..] {
+                                return Err("data read back through read_slice / copy_to differs from what was written".into());
+                            }
+                            s.write_slice(&pat, 0).map_err(|e| format!("write_slice failed: {:?}", e))?;
+                            Ok(())
+                        })();
+                        vm_memory::verif_hooks::set_thread_observer(prev);
+                        moved?;
+                        let (wa, wb) = root.window();
+                        let base = root.arena.ptr() as usize;
+                        let (lo, hi) = (root.ptr() as usize + off, root.ptr() as usize + off + len);
+                        for (addr, size, is_write) in log.borrow().iter() {
+                            let in_window = *addr < base + wb && addr + size > base + wa;
+                            if in_window && (*addr < lo || addr + size > hi) {
+                                return Err(format!("a {} of {} bytes at accessor offset {} reaches outside the accessor (length {}) while it is {}", if *is_write { "store" } else { "load" }, size, *addr as isize - lo as isize, len, if *is_write { "written" } else { "read" }));
+                            }
                         }
                     }
                     if !root.outside_intact(off, len) {
@@ -872,7 +905,7 @@ fn clipping_parent(ctx: &Ctx) {
 pub fn run(tier: Tier, replay: Option<String>) -> i32 {
     let ctx = crate::new_ctx("C01", tier, "model_checking", &replay);
     let thorough = tier.thorough();
-    ctx.set_rule("E1 to an empty frontier: state = (accessor kind, element type, start offset relative to the root, extent); from every reachable VolatileSlice: subslice/get_slice/compute_end_offset for every (offset, count) in (0..=L+1 + values around isize::MAX/usize::MAX + pointer-overflowing values)^2, offset/split_at for every such value, get_ref / aligned_as_ref / aligned_as_mut / get_array_ref (every count 0..=L/size+1 + overflowing counts) for 13 element types of 0..16 bytes (incl. zero-sized types of alignment 1, 2, 8 and 16, whose references must still be aligned), get_atomic_ref for all 10 AtomicInteger types; from references: to_slice; from arrays: to_slice, and ref_at, load and store for every index incl. out of range (an element outside the array must be refused by all three). Every transition runs on the real API and is compared with an interval model (accepted iff offset+count does not overflow and fits the immediate parent; child exactly [parent+o, +c); typed/atomic references only at aligned addresses). Every new state is exercised: fill through the accessor, read back, copy into it from longer sources of 1/2/3/4/8-byte elements, only its own range may change inside a canary window placed before a PROT_NONE guard page. Roots: VolatileSlice of N bytes at every address mod 8 plus one ending at the guard page; MmapRegion (anonymous and file-backed) of 1, 5, 4096, 4097 bytes through the region, guest-region and guest-memory API; ByteValued::from_slice/from_mut_slice for all lengths 0..=17 x misalignments x types; a parent outside the crate whose get_slice clips a request at its end: the provided methods of VolatileMemory (get_ref, get_array_ref, aligned_as_ref/mut, get_atomic_ref) at every offset x count x 8 element types may refuse or panic but never build an accessor beyond what they were handed.");
+    ctx.set_rule("E1 to an empty frontier: state = (accessor kind, element type, start offset relative to the root, extent); from every reachable VolatileSlice: subslice/get_slice/compute_end_offset for every (offset, count) in (0..=L+1 + values around isize::MAX/usize::MAX + pointer-overflowing values)^2, offset/split_at for every such value, get_ref / aligned_as_ref / aligned_as_mut / get_array_ref (every count 0..=L/size+1 + overflowing counts) for 13 element types of 0..16 bytes (incl. zero-sized types of alignment 1, 2, 8 and 16, whose references must still be aligned), get_atomic_ref for all 10 AtomicInteger types; from references: to_slice; from arrays: to_slice, and ref_at, load and store for every index incl. out of range (an element outside the array must be refused by all three). Every transition runs on the real API and is compared with an interval model (accepted iff offset+count does not overflow and fits the immediate parent; child exactly [parent+o, +c); typed/atomic references only at aligned addresses). Every new state is exercised: fill through the accessor, read back, copy into it from longer sources of 1/2/3/4/8-byte elements, only its own range may change inside a canary window placed before a PROT_NONE guard page. While a new slice accessor is written and read (write, read, read_slice, copy_to, write_slice) the load/store traffic of the library is recorded (hook H1): every load and store that falls into the window around the root lies inside the accessor. Roots: VolatileSlice of N bytes at every address mod 8 plus one ending at the guard page; MmapRegion (anonymous and file-backed) of 1, 5, 4096, 4097 bytes through the region, guest-region and guest-memory API; ByteValued::from_slice/from_mut_slice for all lengths 0..=17 x misalignments x types; a parent outside the crate whose get_slice clips a request at its end: the provided methods of VolatileMemory (get_ref, get_array_ref, aligned_as_ref/mut, get_atomic_ref) at every offset x count x 8 element types may refuse or panic but never build an accessor beyond what they were handed.");
     ctx.assume("accessor structs are Copy records of exactly (address, extent, bitmap, mmap handle): two chains reaching the same (kind, type, offset, extent) have the same futures, so merging them is sound");
     if ctx.replay_of.is_some() {
         println!("replay: the search is deterministic; re-running it and reporting whether the recorded key fails again");
